@@ -99,6 +99,8 @@ def _frame(kind, ch: Optional[Choices], uniq, via):
         n = next(uniq)
         if via == "gen_counter":
             data = {"counter": n}
+        elif via == "gen_searching":
+            data = {"searching": n}
         elif via == "gen_item_added":
             data = {"itemAdded": {"id": "i%d" % n, "name": "n%d" % n, "count": [None, n][d("fr.cnt", 2)],
                                   "color": [None, "RED", "GREEN", "BLUE"][d("fr.col", 4)],
@@ -234,7 +236,7 @@ def draw_config(case, ch: Choices):
     subs = []
     for i in range(nsubs):
         s: Dict[str, Any] = {}
-        s["via"] = p.get("via") or ch.pick("sub.via", ["base", "gen_counter", "gen_item_added"])
+        s["via"] = p.get("via") or ch.pick("sub.via", ["base", "gen_counter", "gen_item_added", "gen_searching"])
         s["call_headers"] = ch.pick("sub.ch", [None, {"X-Call": "k%d" % i}, {"X-Client": "override%d" % i}])
         s["start_delay"] = ch.pick("sub.delay", [0.0, 0.0, 0.01, 2.0])
         s["vars"] = ch.draw("sub.vars", 6)
@@ -277,6 +279,11 @@ def make_call(mods, variant, sub, client):
         it = client.counter(from_=from_, **kw)
         variables = {"from": from_}
         return it, "Counter", variables, "counter"
+    if via == "gen_searching":
+        # GraphQL variables named like the method's own locals (query, variables, data)
+        args = {"query": ["whale", "", "{ not graphql }"][v % 3], "variables": [pkg.UNSET, None, 5][v % 3], "data": [pkg.UNSET, "d", None][(v // 3) % 3]}
+        it = client.searching(**args, **kw)
+        return it, "Searching", dict(args), "searching"
     if via == "gen_item_added":
         ItemInput, Color = pkg.ItemInput, pkg.Color
         color = [pkg.UNSET, None, Color.RED, Color.BLUE, Color.GREEN, Color.RED][v]
@@ -689,7 +696,7 @@ def judge(cfg, recs, info, res: RunResult, variant):
         ys = [y for _, y in r.yields]
         exp_ys = exp["yields"]
         if sub["via"] != "base":
-            root_model = {"gen_counter": "Counter", "gen_item_added": "ItemAdded"}[sub["via"]]
+            root_model = {"gen_counter": "Counter", "gen_item_added": "ItemAdded", "gen_searching": "Searching"}[sub["via"]]
             pkg = mods["fx_async"] if variant == "plain" else mods["fx_async_otel"]
             M = getattr(pkg, root_model)
             exp_objs = [M.model_validate(d) for d in exp_ys]
@@ -753,7 +760,7 @@ def _expected_query(mods, sub):
         return "subscription S($a: Int) { counter(from: $a) }"
     import re
     text = fixture.QUERIES
-    name = {"gen_counter": "Counter", "gen_item_added": "ItemAdded"}[sub["via"]]
+    name = {"gen_counter": "Counter", "gen_item_added": "ItemAdded", "gen_searching": "Searching"}[sub["via"]]
     for line in text.splitlines():
         if line.startswith("subscription %s(" % name):
             from graphql import parse, print_ast
@@ -939,7 +946,7 @@ def plan(tier, base_seed) -> Plan:
     enum = _ENUM_CACHE[maxlen]
     n_enum = len(enum)
     n_seeded = 1500 if tier == "quick" else 6000
-    vias = ["base", "gen_counter", "gen_item_added"]
+    vias = ["base", "gen_counter", "gen_item_added", "gen_searching"]
 
     def case(i):
         if i < n_enum:
@@ -951,7 +958,7 @@ def plan(tier, base_seed) -> Plan:
             return {"id": "enum-%s-%s" % (phase, "".join(k[0] if k != "next_nodata" else "d" for k in kinds) or "-"),
                     "seed": derive_seed(base_seed, PROPERTY, "enum", i),
                     "params": {"mode": "enum", "phase": phase, "kinds": kinds, "variant": v, "alt": alt,
-                               "via": vias[(i // 3) % 3], "vary": True}}
+                               "via": vias[(i // 3) % 4], "vary": True}}
         j = i - n_enum
         if j >= n_seeded - 2:
             v_ = ["plain", "otel_rec"][j - (n_seeded - 2)]
